@@ -24,6 +24,7 @@ type FuncResult struct {
 	Lines      int
 	UsedLib    []string
 	UsedCtr    []string
+	VacuousAt   []string // obligations whose program point is unreachable under the accumulated assumptions
 	Consistency string // result of the final check-sat on the whole background: sat/unknown expected
 }
 
@@ -76,12 +77,19 @@ func (e *Enc) incrementalScript(perQueryMs int) string {
 	var b strings.Builder
 	b.WriteString(e.prelude())
 	at := 0
+	seenReach := map[string]bool{}
 	for _, o := range e.obls {
 		for _, l := range e.lines[at:o.At] {
 			b.WriteString(l)
 			b.WriteByte('\n')
 		}
 		at = o.At
+		// vacuity guard: the program point of the obligation must be reachable under the assumptions so far
+		if !o.Cover && o.Reach != "true" && !seenReach[o.Reach] {
+			seenReach[o.Reach] = true
+			o.ReachProbe = true
+			b.WriteString("(push 1)\n(assert " + o.Reach + ")\n(check-sat)\n(pop 1)\n")
+		}
 		b.WriteString("(push 1)\n")
 		if o.Cover {
 			b.WriteString(fmt.Sprintf("(assert %s)\n", and(o.Reach, o.Goal)))
@@ -161,20 +169,43 @@ func solveFunc(fr *FuncResult, cfg SolverCfg) {
 		os.WriteFile(filepath.Join(cfg.WorkDir, sanitize(fr.Name)+".inc.smt2"), []byte(script), 0o644)
 	}
 	per := secs / float64(len(fr.Obls))
-	if len(results) == len(fr.Obls)+1 {
-		fr.Consistency = results[len(fr.Obls)][1]
+	nProbes := 0
+	for _, o := range fr.Obls {
+		if o.ReachProbe {
+			nProbes++
+		}
+	}
+	if len(results) == len(fr.Obls)+nProbes+1 {
+		fr.Consistency = results[len(results)-1][1]
 	} else {
 		fr.Consistency = "not-run"
 	}
-	for i, o := range fr.Obls {
-		if i < len(results) {
-			o.Status = results[i][1]
+	ri := 0
+	for _, o := range fr.Obls {
+		if o.ReachProbe {
+			if ri < len(results) && results[ri][1] == "unsat" && o.Kind != "panic" {
+				fr.VacuousAt = append(fr.VacuousAt, o.Name)
+				if cfg.KeepFiles {
+					var b strings.Builder
+					b.WriteString(e.prelude())
+					for _, l := range e.lines[:o.At] {
+						b.WriteString(l + "\n")
+					}
+					b.WriteString("(assert " + o.Reach + ")\n(check-sat)\n")
+					os.WriteFile(filepath.Join(cfg.WorkDir, sanitize(o.Name)+".vacuous.smt2"), []byte(b.String()), 0o644)
+				}
+			}
+			ri++
+		}
+		if ri < len(results) && len(results) >= len(fr.Obls)+nProbes {
+			o.Status = results[ri][1]
 			o.Solver = "z3-new(incremental)"
 			o.Secs = per
 		} else {
 			o.Status = "error"
 			o.Output = tail(out, 400)
 		}
+		ri++
 	}
 	var wg sync.WaitGroup
 	sem := make(chan struct{}, 4)
